@@ -96,6 +96,7 @@ class Interp(StmtMixin, OpsMixin, ObjMixin, CallMixin):
         self.fresh_in_condition = False
         self.no_summary = set()
         self._instantiable = None
+        self.expr_nsp = None
         self.namespace_root = None
         self.summaries = {}
         self.method_summaries = {}
